@@ -8,7 +8,7 @@ from __future__ import annotations
 
 import ast
 
-from ..astutil import call_name
+from ..astutil import expand_locals, call_name
 from ..cfg import walk_shallow
 from ..core import AnalysisError, Report, norm
 from ..effects import TAPE_SPEC, Engine, E, T
@@ -74,7 +74,7 @@ def check(ctx):
             if not used:
                 continue
             n_fields += 1
-            kind = _classify_store(st.value, params)
+            kind = _classify_store(expand_locals(init.node, st, st.value), params)
             where = f"{QS}:QuantumScript.__init__ {norm(st)}"
             if kind in ("fresh", "const"):
                 rep.proved("R-C40-alias", where, "stored through a copying / immutable constructor")
